@@ -259,12 +259,11 @@ def _apply_rules(ed: _Edit, toks, lo, hi, repo, opts, rules, dropped, file):
         # Result::map_err), so that the closure body is ordinary code of the function
         if 'desugar_map_err' in opts and t.kind == 'ident' and t.text == 'map_err' and p >= 1 and toks[ci[p - 1]].text == '.' \
                 and p + 5 < len(ci) and toks[ci[p + 1]].text == '(' and toks[ci[p + 2]].text == '|' and toks[ci[p + 3]].kind == 'ident' \
-                and toks[ci[p + 4]].text == '|' and toks[ci[p + 5]].text == '{':
+                and toks[ci[p + 4]].text == '|':
             call_open = ci[p + 1]
             call_close = rs.match_close(toks, call_open)
-            blk_close = rs.match_close(toks, ci[p + 5])
-            if pos[blk_close] + 1 >= len(ci) or ci[pos[blk_close] + 1] != call_close:
-                raise AnchorLost('map_err closure is not a single block at %s:%d' % (file, t.line))
+            # (the closure body is a block `{ BODY }` or an expression: either way everything up to the call's closing parenthesis;
+            # a parameter `_` is the wildcard pattern of the Err arm)
             q = _receiver_start(toks, ci, p - 2)
             param = toks[ci[p + 3]].text
             ed.ins_before(ci[q], '(match (')
@@ -281,6 +280,10 @@ def _receiver_start(toks, ci, q):
     """code position of the first token of the postfix expression whose last token is at code position q"""
     while q >= 0:
         tq = toks[ci[q]]
+        if tq.text == '?':
+            # the postfix `?` belongs to the receiver chain
+            q -= 1
+            continue
         if tq.kind == 'close' and tq.text in (')', ']'):
             depth, r = 0, q
             while r >= 0:
@@ -693,18 +696,23 @@ def splice_fn(repo, file, item_path, sections, trait=None, nth=0, opts=(), canar
             raise AnchorLost('%s: //@%s matches nothing (receiver text changed?)' % (item_path, dk))
         for p0 in hits:
             pm = p0 + len(want) - 1            # code position of the method name
+            # the callee may be a local name (`f`) or a function path (`PossibleValue::should_show_help`)
+            pe = pm + 2
+            if method in ('any', 'all') and pm + 3 < len(body_ci) and toks[body_ci[pm + 1]].text == '(' and toks[body_ci[pm + 2]].kind == 'ident':
+                while pe + 3 < len(body_ci) and toks[body_ci[pe + 1]].text == ':' and toks[body_ci[pe + 2]].text == ':' and toks[body_ci[pe + 3]].kind == 'ident':
+                    pe += 3
             if method in ('any', 'all') and pm + 3 < len(body_ci) and toks[body_ci[pm + 1]].text == '(' and toks[body_ci[pm + 2]].kind == 'ident' \
-                    and toks[body_ci[pm + 3]].text == ')':
-                # X2f with a NAMED local closure: `ITER.any(f)` / `ITER.all(f)` written as the loop calling `f` on each element
+                    and pe + 1 < len(body_ci) and toks[body_ci[pe + 1]].text == ')':
+                # X2f with a NAMED callee: `ITER.any(f)` / `ITER.all(f)` written as the loop calling `f` on each element
                 kk = re.sub(r'\W', '_', dk_id)
-                fname = toks[body_ci[pm + 2]].text
+                fname = ''.join(toks[body_ci[j]].text for j in range(pm + 2, pe + 1))
                 if fname in ('exists', 'forall', 'choose', 'assert', 'assume', 'proof', 'spec'):
                     # a local named like a Verus keyword: the template renames its binding (`let exists =` -> `let cv_exists =`, X7)
                     fname = 'cv_' + fname
                 init, hit = ('false', 'true') if method == 'any' else ('true', 'false')
                 neg = '' if method == 'any' else '!'
                 ed.ins_before(body_ci[p0], '({ let mut cv_any%s = %s; %s let mut cv_ait%s = (' % (kk, init, sections.get('any_before ' + dk_id, '').strip(), kk))
-                ed.replace(body_ci[pm - 1], body_ci[pm + 3], ').into_iter(); while let Some(cv_item%s) = cv_ait%s.next() %s { %s if %s%s(cv_item%s) { cv_any%s = %s; break; } } %s cv_any%s })' % (
+                ed.replace(body_ci[pm - 1], body_ci[pe + 1], ').into_iter(); while let Some(cv_item%s) = cv_ait%s.next() %s { %s if %s%s(cv_item%s) { cv_any%s = %s; break; } } %s cv_any%s })' % (
                     kk, kk, sections.get('any_inv ' + dk_id, '').strip(), sections.get('any_body ' + dk_id, '').strip(), neg, fname, kk, kk, hit,
                     sections.get('any_after ' + dk_id, '').strip(), kk))
                 rules['X2f-' + method + '-named'] = rules.get('X2f-' + method + '-named', 0) + 1
@@ -901,6 +909,12 @@ def splice_fn(repo, file, item_path, sections, trait=None, nth=0, opts=(), canar
             m = match_at(p0)
             if m is not None:
                 hits.append((p0, m[0], m[1]))
+        if len(hits) == 0 and 'optional' in rk.split()[2:]:
+            # `//@replace K optional`: the statement may be ABSENT (then nothing stands for it and the obligations that needed it fail).
+            # Only for a function whose splice line pins its number of loops (`loops=N`), so that a rewriting of the statement as a
+            # loop the proof has no invariant for loses the anchor instead of failing an obligation.
+            rules['X7-optional-absent'] = rules.get('X7-optional-absent', 0) + 1
+            continue
         if (len(hits) != 1 and not many) or len(hits) == 0:
             raise AnchorLost('%s: //@replace %s matches %d times (statement text changed?)' % (item_path, kk, len(hits)))
         for p0, pend, caps in hits:
@@ -1102,13 +1116,13 @@ def _add_false(spec_text):
     return t + '\n    ensures false,\n'
 
 
-def copy_item(repo, file, name, opts=(), rules=None, nth=0):
+def copy_item(repo, file, name, opts=(), rules=None, nth=0, trait=None):
     path = os.path.join(repo, file)
     if not os.path.exists(path):
         raise AnchorLost('file missing: %s' % file)
     toks = rs.tokenize(open(path).read())
     try:
-        item, _ = rs.find_item(toks, name, None, nth)
+        item, _ = rs.find_item(toks, name, trait, nth)
     except rs.ScanError as e:
         raise AnchorLost(str(e))
     rules = {} if rules is None else rules
@@ -1246,6 +1260,10 @@ def build(repo, template_path, canary=False, auto=False) -> SpliceResult:
                                         opts, is_canary_target, rules, dropped, lift=('lift' in kv), auto_lines=auto_lines)
             info['role'] = kv.get('role', 'helper')
             info['closures_ok'] = int(kv.get('closures_ok', 0))
+            if 'loops' in kv and 'lift' not in kv and info['loops'] != int(kv['loops']):
+                raise AnchorLost('%s: the function now has %d loops, the unit was written for %s' % (kv['item'], info['loops'], kv['loops']))
+            if any(k.startswith('replace ') and 'optional' in k.split()[2:] for k in sections) and 'loops' not in kv:
+                raise AnchorLost('template: //@replace .. optional needs loops=N on the //@splice line of %s' % kv['item'])
             functions.append(info)
             out.append('// @src %s:%d %s' % (info['file'], info['line_start'], info['item']))
             lmap.append(None)
@@ -1285,7 +1303,7 @@ def build(repo, template_path, canary=False, auto=False) -> SpliceResult:
             # environment constant checked syntactically: the real item's text (X3 applied, whitespace-normalised)
             # must equal the text after `text=`; otherwise the unit is undecided (anchor-lost), never an alarm
             want = rest.split('text=', 1)[1].strip()
-            lines, lm, info = copy_item(repo, kv['file'], kv['item'], opts, {}, int(kv.get('nth', 0)))
+            lines, lm, info = copy_item(repo, kv['file'], kv['item'], opts, {}, int(kv.get('nth', 0)), kv.get('trait'))
             def _norm(txt):
                 # collapse whitespace OUTSIDE string literals only (the width of "  " is what such a constant is about)
                 toks_n = [t for t in rs.tokenize(txt) if t.kind not in ('ws', 'comment', 'doc')]
